@@ -82,11 +82,24 @@ let run_script (type s) (step : s -> sev -> s) (init : s) (crashed : s -> bool)
         let r = seen 99 !st in
         acc := (if r = [] then "none" else hex_of_bytes r);
         ev (Close (n_of_int 99))
+      | 'W' -> ()
       | 'O' -> ensure (conn_of head)
-      | 'D' -> let k = conn_of head in ensure k; ev (Data (n_of_int k, n0, data))
+      | 'D' ->
+        (* the JT808 reader reads at most 1023 bytes at a time: a longer write is several reads *)
+        let k = conn_of head in ensure k;
+        let rec feed l =
+          if is808 && Stdlib.List.length l > 1023 then begin
+            ev (Data (n_of_int k, n0, Stdlib.List.filteri (fun i _ -> i < 1023) l));
+            feed (Stdlib.List.filteri (fun i _ -> i >= 1023) l)
+          end else ev (Data (n_of_int k, n0, l)) in
+        feed data
       | 'F' | 'R' ->
+        (* RST: the server's writes fail from now on and its Read fails; FIN: its Read returns EOF *)
         let k = conn_of head in
-        if Hashtbl.mem opened k then (ev (Close (n_of_int k)); Hashtbl.replace status k "gone")
+        if Hashtbl.mem opened k then begin
+          if head.[0] = 'R' then ev (WriteErr (n_of_int k));
+          ev (Close (n_of_int k)); Hashtbl.replace status k "gone"
+        end
       | 'P' ->
         let k = conn_of head in
         ensure k; ev (Data (n_of_int k, n0, data));
